@@ -241,16 +241,24 @@ theorem inherentIndex_mem {F : List Fn} {b m : String} {f : Fn} (h : inherentInd
   have := List.mem_of_getLast? h
   exact (List.mem_filter.1 this).1
 
-theorem findCallee_mem {F : List Fn} {n : String} {f : Fn} (h : findCallee F n = some f) : f ∈ F := by
-  unfold findCallee at h
-  split at h
-  · rename_i g hg
-    simp only [Option.some.injEq] at h
-    subst h
-    exact (findFn_mem hg).1
-  · split at h
+theorem lookupBy_mem {F : List Fn} {n : String} {k : Gen.CalleeLookup} {f : Fn} (h : lookupBy F n k = some f) : f ∈ F := by
+  cases k with
+  | asSpelled => exact (findFn_mem h).1
+  | inherentIndex =>
+    simp only [lookupBy] at h
+    split at h
     · exact inherentIndex_mem h
     · simp at h
+
+/-- whatever the order of the lookups, the callee is a function of the program -/
+theorem findCallee_mem {F : List Fn} {n : String} {f : Fn} (h : findCallee F n = some f) : f ∈ F := by
+  unfold findCallee at h
+  obtain ⟨k, _, hk⟩ := List.exists_of_findSome?_eq_some h
+  exact lookupBy_mem hk
+
+/-- the order mono.rs uses (regenerated table): a name that is defined as spelled means that definition -/
+theorem findCallee_of_findFn {F : List Fn} {n : String} {f : Fn} (h : findFn F n = some f) : findCallee F n = some f := by
+  simp [findCallee, Gen.calleeLookupOrder, lookupBy, h]
 
 theorem ensureInstance_known {F : List Fn} {c : Ctx} (n : String) (s : Subst) (hn : (findFn F n).isSome = true)
     (h : WorkKnown F c) : WorkKnown F (ensureInstance c n s).2 := by
